@@ -287,6 +287,13 @@ func (m *dMachine) Next(t *rapid.T) dOp {
 		// expressed in the new one: a provider of that context re-prices its binding, then the next batches fall due
 		op.Ops = append(op.Ops, cOp{M: "svc.updateBinding", W: rapid.IntRange(1, 2).Draw(t, "repricer"), D: "svc0", E: "@base", A: "1000000000000", B: "1", N: 0},
 			cOp{M: "block", N: 6, A: fmt.Sprint(int64(5 * time.Second))})
+	} else if mod == "service" && rapid.IntRange(0, 2).Draw(t, "earn") == 0 {
+		// the fee parameters are consumed when a provider answers and when its owner collects: both providers of the
+		// prepared context answer an active request under P and withdraw what they earned (before and under P)
+		for i := 0; i < 3; i++ { // the first active request, whoever it is addressed to (answered ones are no longer active)
+			op.Ops = append(op.Ops, cOp{M: "svc.respond", W: 1, K: 0})
+		}
+		op.Ops = append(op.Ops, cOp{M: "svc.withdrawEarned", W: 1}, cOp{M: "svc.withdrawEarned", W: 2})
 	} else if rapid.IntRange(0, 2).Draw(t, "tailblocks") == 0 {
 		op.Ops = append(op.Ops, genBlock(t)) // whatever the operations left behind meets the block hooks under P
 	}
@@ -352,7 +359,13 @@ func (m *dMachine) Apply(op dOp) error {
 	} else {
 		m.seen["P/"+mod+"/default"]++
 	}
+	answered := 0 // requests answered under P so far
+	// a third run executes the whole sequence under the defaults: a state that the sequence reached under P may make an
+	// operation abort under either parameter set (tallies that no longer add up, say), and then the same-state comparison
+	// sees two aborts and demands nothing, although the operation is possible under the defaults
+	D := m.c.Branch()
 	for i, o := range op.Ops {
+		rH := exec(D, o)
 		sb := B.Branch()
 		if rr := sb.Deliver(dflt.updateMsg(E, E.Gov.String())); rr.Outcome != chain.OK {
 			return pbt.Failf("harness/defaults-refused", "cannot put %s defaults back: %v", mod, rr)
@@ -363,6 +376,15 @@ func (m *dMachine) Apply(op dOp) error {
 		ty := shortType(o)
 		if traceOn {
 			fmt.Fprintf(os.Stderr, "TRACE %s P=%s | %s %+v | default: %s | P: %s\n", mod, P, ty, o, truncate(rD.detail, 200), truncate(rQ.detail, 200))
+		}
+		if nonDefault && mod == "service" && o.M == "svc.respond" && rQ.outcome == chain.OK {
+			answered++
+		}
+		if nonDefault && mod == "service" && o.M == "svc.withdrawEarned" && rQ.outcome == chain.OK && answered > 0 && P.Service != nil {
+			m.seen["service-fees-earned-and-withdrawn-under-P"]++
+			if P.Service.FeeTax == "0" {
+				m.seen["service-fees-earned-and-withdrawn-under-zero-tax"]++
+			}
 		}
 		if nonDefault {
 			m.seen["msg/"+ty+"/compared"]++
@@ -378,6 +400,14 @@ func (m *dMachine) Apply(op dOp) error {
 			m.htlcOpClasses(B, o, tight, rQ)
 		}
 		dOrdinary := rD.outcome == chain.OK || rD.outcome == chain.Rejected
+		if !dOrdinary && rQ.outcome == chain.Panicked && rD.outcome == chain.Panicked && (rH.outcome == chain.OK || rH.outcome == chain.Rejected) {
+			what := fmt.Sprintf("step %d %s %+v aborts on the state the sequence reached under P - under P: %s; with the defaults put back: %s - while the same sequence under the defaults throughout gives: %s\nP = %s",
+				i, ty, o, truncate(rQ.detail, 300), truncate(rD.detail, 300), truncate(rH.detail, 200), P)
+			if o.M == "block" {
+				return pbt.Failf("C16/hook-panic-on-state-reached-under-P/"+mod+"/"+panicClass(rQ.pan), "%s", what)
+			}
+			return pbt.Failf("C16/handler-panic-on-state-reached-under-P/"+mod+"/"+panicClass(rQ.pan), "%s", what)
+		}
 		if o.M == "block" {
 			if nonDefault && rQ.outcome == chain.OK {
 				if mod == "service" && hasEvent(rQ.events, "service_slash") {
